@@ -320,13 +320,25 @@ End Captures.
 (* ================================================================ what FromPcap writes *)
 Section View.
 Variable capdb : N -> capture.
+Variable bad : N -> bool.
 Variable merge : list file -> list entry.
 (* the merge hypothesis (property C07): the merged file holds the newest entry of every id and nothing else *)
 Hypothesis merge_lookup : forall fs id, find_ent id (merge fs) = lookup_vis fs id.
 Hypothesis merge_sub : forall fs e, In e (merge fs) -> In e (ents_of fs).
 
 Definition created_entries (P caps : list N) (snap : list file) : list entry :=
-  fst (fst (from_pcap capdb (filter (ne capdb) P) caps snap)).
+  fst (fst (from_pcap capdb bad (filter (ne capdb) P) caps snap)).
+
+(* the files a job accounts for: everything up to the first unreadable file (or that file alone) *)
+Lemma good_prefix_firstn : forall ks, firstn (length (good_prefix bad ks)) ks = good_prefix bad ks.
+Proof. induction ks; simpl; [reflexivity|]. destruct (bad a); simpl; [reflexivity|]. rewrite IHks. reflexivity. Qed.
+
+Lemma proc_caps_firstn : forall ks, firstn (length (proc_caps bad ks)) ks = proc_caps bad ks.
+Proof.
+  intros ks. unfold proc_caps. destruct (good_prefix bad ks) eqn:E.
+  - destruct ks; reflexivity.
+  - rewrite <- E. apply good_prefix_firstn.
+Qed.
 
 Definition ids_ok (fs : list file) : Prop :=
   forall e1 e2, In e1 (ents_of fs) -> In e2 (ents_of fs) -> (e_id e1 = e_id e2 <-> e_flow e1 = e_flow e2).
@@ -367,26 +379,28 @@ Qed.
 
 Lemma from_pcap_spec : forall P caps snap,
   let es := created_entries P caps snap in
+  let pc := proc_caps bad caps in
   NoDup (map e_flow es) /\
-  (forall fl, In fl (map e_flow es) <-> in_caps capdb caps fl = true) /\
-  (forall e, In e es -> e_ver e = total_bytes capdb (P ++ caps) (e_flow e)) /\
+  (forall fl, In fl (map e_flow es) <-> in_caps capdb pc fl = true) /\
+  (forall e, In e es -> e_ver e = total_bytes capdb (P ++ pc) (e_flow e)) /\
   (forall e, In e es -> find_flow (e_flow e) snap = Some (e_id e) \/ (is_fresh snap e /\ snap_next snap <= e_id e)) /\
   (forall e1 e2, In e1 es -> In e2 es -> is_fresh snap e1 -> is_fresh snap e2 -> e_id e1 = e_id e2 -> e_flow e1 = e_flow e2) /\
-  snd (from_pcap capdb (filter (ne capdb) P) caps snap) = filter (ne capdb) (P ++ caps) /\
-  (es = [] -> filter (ne capdb) caps = []).
+  snd (from_pcap capdb bad (filter (ne capdb) P) caps snap) = filter (ne capdb) (P ++ pc) /\
+  (es = [] -> filter (ne capdb) pc = []).
 Proof.
   intros P caps snap. unfold created_entries, from_pcap.
   fold (ne capdb).
-  set (newk := filter (ne capdb) caps).
+  set (pc := proc_caps bad caps).
+  set (newk := filter (ne capdb) pc).
   set (allk := filter (ne capdb) P ++ newk).
   set (touched := filter (in_caps capdb newk) (flows_of capdb allk)).
   destruct (assign capdb allk snap touched (snap_next snap)) as [es n] eqn:E. simpl.
   destruct (assign_spec _ _ _ _ _ _ _ E) as (L & M & V & F & D).
-  assert (T : forall fl, In fl touched <-> in_caps capdb caps fl = true).
+  assert (T : forall fl, In fl touched <-> in_caps capdb pc fl = true).
   { intros fl. subst touched. rewrite filter_In, flows_of_iff. subst allk newk.
-    rewrite in_caps_app, !in_caps_ne. destruct (in_caps capdb caps fl); simpl; [|split; [tauto|discriminate]].
+    rewrite in_caps_app, !in_caps_ne. destruct (in_caps capdb pc fl); simpl; [|split; [tauto|discriminate]].
     rewrite orb_true_r. tauto. }
-  assert (A : forall fl, total_bytes capdb allk fl = total_bytes capdb (P ++ caps) fl).
+  assert (A : forall fl, total_bytes capdb allk fl = total_bytes capdb (P ++ pc) fl).
   { intros fl. subst allk newk. rewrite !total_bytes_app, !total_bytes_ne. reflexivity. }
   repeat split.
   - rewrite M. subst touched. apply nodup_filter. unfold flows_of. apply dedup_nodup; try exact capdb.
@@ -401,7 +415,7 @@ Proof.
     assert (Hk : In k newk) by (rewrite Ek; left; reflexivity).
     subst newk. apply filter_In in Hk. destruct Hk as [Hk1 Hk2]. unfold ne in Hk2.
     destruct (capdb k) as [|[f b] c] eqn:Ec; [discriminate|].
-    assert (in_caps capdb caps f = true).
+    assert (in_caps capdb pc f = true).
     { apply in_caps_iff. unfold caps_flows. apply in_flat_map. exists k. split; [exact Hk1|]. rewrite Ec. left. reflexivity. }
     apply T in H. rewrite <- M in H. exact H.
 Qed.
@@ -409,7 +423,7 @@ Qed.
 (* ================================================================ the invariant *)
 Definition pending_caps (st : state) : list N :=
   match ijob st with
-  | Some j => match ij_phase j with AtDone => ij_caps j | AtStart => [] end
+  | Some j => match ij_phase j with AtDone => proc_caps bad (ij_caps j) | AtStart => [] end
   | None => []
   end.
 
@@ -423,6 +437,7 @@ Record inv10 (st : state) : Prop := {
   v_ij : forall j, ijob st = Some j ->
            sub_pairs (indexes st) (ij_snap j) /\ ids_ok (ij_snap j) /\
            (ij_phase j = AtDone ->
+              ij_nproc j = length (proc_caps bad (ij_caps j)) /\
               exists u, ij_created j = mk_created u (created_entries (processed st) (ij_caps j) (ij_snap j)));
   v_mj : forall j, mjob st = Some j ->
            firstn (length (mj_snap j)) (skipn (mj_off j) (indexes st)) = mj_snap j /\
@@ -477,7 +492,7 @@ Qed.
 
 (* ================================================================ preservation, action by action *)
 Variable rf : bool.
-Notation stepm := (step capdb rf merge).
+Notation stepm := (step capdb bad rf merge).
 
 Lemma v_step_import : forall ks st, inv13 st -> inv10 st -> inv10 (stepm st (AImport ks)).
 Proof.
@@ -541,20 +556,20 @@ Qed.
 Lemma v_step_start_import : forall st, inv10 st -> inv10 (stepm st (AStart KImport)).
 Proof.
   intros st I. simpl.
-  destruct (ijob st) as [[caps nx snap [|] cr un]|] eqn:Hj; try exact I.
+  destruct (ijob st) as [[caps nx snap [|] cr un np]|] eqn:Hj; try exact I.
   destruct I as [S I K J M].
   assert (K0 : known st = filter (ne capdb) (processed st)).
   { rewrite K. unfold pending_caps. rewrite Hj. simpl. rewrite app_nil_r. reflexivity. }
   pose proof (from_pcap_spec (processed st) caps snap) as SP. simpl in SP.
   destruct SP as (_ & _ & _ & _ & _ & SK & SE).
   unfold created_entries in SE. rewrite <- K0 in SK, SE.
-  destruct (from_pcap capdb (known st) caps snap) as [[es usednew] allk] eqn:FP. simpl in SK, SE.
+  destruct (from_pcap capdb bad (known st) caps snap) as [[es usednew] allk] eqn:FP. simpl in SK, SE.
   constructor; simpl; auto.
   - unfold pending_caps. simpl. destruct es.
     + rewrite K0, filter_app, (SE eq_refl), app_nil_r. reflexivity.
     + rewrite SK. reflexivity.
   - intros j E. inversion E; subst; simpl. destruct (J _ Hj) as (J1 & J2 & _). simpl in J1, J2.
-    split; [exact J1|]. split; [exact J2|]. intros _. exists (next_uid st).
+    split; [exact J1|]. split; [exact J2|]. intros _. split; [reflexivity|]. exists (next_uid st).
     unfold created_entries. rewrite <- K0, FP. simpl. destruct es; reflexivity.
 Qed.
 
@@ -610,11 +625,12 @@ Qed.
 Lemma import_publish : forall P caps snap idx u,
   spec_ok P idx -> ids_ok idx -> sub_pairs idx snap -> ids_ok snap ->
   let es := created_entries P caps snap in
-  spec_ok (P ++ caps) (idx ++ mk_created u es) /\ ids_ok (idx ++ mk_created u es).
+  spec_ok (P ++ proc_caps bad caps) (idx ++ mk_created u es) /\ ids_ok (idx ++ mk_created u es).
 Proof.
-  intros P caps snap idx u [S1 S2] I J1 J2. simpl.
-  destruct (from_pcap_spec P caps snap) as (ND & FL & VER & IDS & FRESH & _ & _).
-  remember (created_entries P caps snap) as es eqn:Ees0. clear Ees0.
+  intros P caps0 snap idx u [S1 S2] I J1 J2. simpl.
+  destruct (from_pcap_spec P caps0 snap) as (ND & FL & VER & IDS & FRESH & _ & _).
+  remember (created_entries P caps0 snap) as es eqn:Ees0. clear Ees0.
+  remember (proc_caps bad caps0) as caps eqn:Ecaps. clear Ecaps caps0.
   (* an entry of the new file against an entry of the snapshot *)
   assert (A1 : forall e p, In e es -> In p (ents_of snap) -> (e_id e = e_id p <-> e_flow e = e_flow p)).
   { intros e p He Hp. destruct (IDS e He) as [X|[X Y]].
@@ -697,12 +713,13 @@ Qed.
 Lemma v_step_complete_import : forall st, inv10 st -> inv10 (stepm st (AComplete KImport)).
 Proof.
   intros st I. simpl.
-  destruct (ijob st) as [[caps nx snap [|] cr un]|] eqn:Hj; try exact I.
+  destruct (ijob st) as [[caps nx snap [|] cr un np]|] eqn:Hj; try exact I.
   apply inv10_start_merge'. apply inv10_start_tagging.
   match goal with |- inv10 (match ?qq with [] => ?s1 | _ => _ end) => set (st1 := s1) end.
   assert (I1 : inv10 st1).
   { destruct I as [S I K J M].
-    destruct (J _ Hj) as (J1 & J2 & J3). simpl in J1, J2, J3. destruct (J3 eq_refl) as [u Cr]. clear J3.
+    destruct (J _ Hj) as (J1 & J2 & J3). simpl in J1, J2, J3. destruct (J3 eq_refl) as [Np [u Cr]]. clear J3.
+    subst np. subst st1. rewrite proc_caps_firstn.
     destruct (import_publish (processed st) caps snap (indexes st) u S I J1 J2) as [P1 P2].
     rewrite <- Cr in P1, P2.
     constructor; simpl; auto.
@@ -712,7 +729,7 @@ Proof.
       rewrite firstn_skipn_app_keep; [exact M1|]. rewrite M1. reflexivity. }
   assert (Hij : ijob st1 = None) by reflexivity.
   clearbody st1.
-  destruct (skipn (length caps) (queue st)); [exact I1|].
+  destruct (skipn np (queue st)); [exact I1|].
   apply inv10_launch_import; [exact I1|exact Hij].
 Qed.
 
@@ -782,17 +799,17 @@ Proof.
   - destruct (ntags st =? 0); auto.
   - destruct (ntags st =? 0); auto. rewrite indexes_start_tagging. exact U.
   - destruct k.
-    + destruct (ijob st) as [[caps nx snap [|] cr un]|]; auto.
-      destruct (from_pcap capdb (known st) caps snap) as [[es usednew] allk]. auto.
+    + destruct (ijob st) as [[caps nx snap [|] cr un np]|]; auto.
+      destruct (from_pcap capdb bad (known st) caps snap) as [[es usednew] allk]. auto.
     + destruct (mjob st) as [[off snap [|] mg]|]; auto.
     + destruct (tjob st) as [[snap [|] vv]|]; auto.
   - destruct k.
-    + destruct (ijob st) as [[caps nx snap [|] cr un]|] eqn:Hj; auto.
+    + destruct (ijob st) as [[caps nx snap [|] cr un np]|] eqn:Hj; auto.
       rewrite indexes_start_merge, indexes_start_tagging.
-      assert (E : forall s1 : state, indexes match skipn (length caps) (queue st) with [] => s1 | _ :: _ => launch_import (skipn (length caps) (queue st)) s1 end = indexes s1).
-      { intros. destruct (skipn (length caps) (queue st)); reflexivity. }
+      assert (E : forall s1 : state, indexes match skipn np (queue st) with [] => s1 | _ :: _ => launch_import (skipn np (queue st)) s1 end = indexes s1).
+      { intros. destruct (skipn np (queue st)); reflexivity. }
       rewrite E. simpl.
-      destruct (v_ij _ I _ Hj) as (J1 & J2 & J3). simpl in J1, J2, J3. destruct (J3 eq_refl) as [u Cr]. clear J3.
+      destruct (v_ij _ I _ Hj) as (J1 & J2 & J3). simpl in J1, J2, J3. destruct (J3 eq_refl) as [_ [u Cr]]. clear J3.
       destruct (import_publish (processed st) caps snap (indexes st) u (v_spec _ I) (v_ids _ I) J1 J2) as [_ P2].
       destruct (from_pcap_spec (processed st) caps snap) as (ND & _).
       rewrite Cr. intros f Hf. apply in_app_or in Hf. destruct Hf as [Hf|Hf]; [auto|].
@@ -869,14 +886,14 @@ Proof.
   - destruct (ntags st =? 0); auto.
   - destruct (ntags st =? 0); auto. rewrite views_start_tagging. exact H.
   - destruct k.
-    + destruct (ijob st) as [[caps nx snap [|] cr un]|]; auto.
-      destruct (from_pcap capdb (known st) caps snap) as [[es usednew] allk]. auto.
+    + destruct (ijob st) as [[caps nx snap [|] cr un np]|]; auto.
+      destruct (from_pcap capdb bad (known st) caps snap) as [[es usednew] allk]. auto.
     + destruct (mjob st) as [[off snap [|] mg]|]; auto.
     + destruct (tjob st) as [[snap [|] vv]|]; auto.
   - destruct k.
-    + destruct (ijob st) as [[caps nx snap [|] cr un]|]; auto.
+    + destruct (ijob st) as [[caps nx snap [|] cr un np]|]; auto.
       rewrite views_start_merge, views_start_tagging.
-      destruct (skipn (length caps) (queue st)); exact H.
+      destruct (skipn np (queue st)); exact H.
     + destruct (mjob st) as [[off snap [|] mg]|]; auto.
       unfold set_used_disk. simpl. rewrite views_start_merge. destruct mg; exact H.
     + destruct (tjob st) as [[snap [|] vv]|]; auto.
@@ -929,6 +946,7 @@ Qed.
 (* ================================================================ statements of C10 *)
 Section Statements.
 Variable capdb : N -> capture.
+Variable bad : N -> bool.
 Variable merge : list file -> list entry.
 Hypothesis merge_lookup : forall fs id, find_ent id (merge fs) = lookup_vis fs id.
 Hypothesis merge_sub : forall fs e, In e (merge fs) -> In e (ents_of fs).
@@ -943,14 +961,14 @@ Proof.
 Qed.
 
 Lemma view_snapshot : forall acts1 acts2 v,
-  let st1 := fold_left (step capdb false merge) acts1 init in
-  let st2 := fold_left (step capdb false merge) (acts1 ++ AView v :: acts2) init in
+  let st1 := fold_left (step capdb bad false merge) acts1 init in
+  let st2 := fold_left (step capdb bad false merge) (acts1 ++ AView v :: acts2) init in
   view_of v (views st1) = None -> (forall a, In a acts2 -> a <> ARelease v) ->
   view_of v (views st2) = Some (indexes st1) /\ (forall f, In f (indexes st1) -> In (f_uid f) (disk st2)).
 Proof.
   intros acts1 acts2 v st1 st2 Hn Hr.
   assert (V : view_of v (views st2) = Some (indexes st1)).
-  { subst st2. rewrite fold_left_app. simpl fold_left at 1. apply view_run_stable; auto. apply (view_open capdb merge false). exact Hn. }
+  { subst st2. rewrite fold_left_app. simpl fold_left at 1. apply view_run_stable; auto. apply (view_open capdb bad merge false). exact Hn. }
   split; [exact V|]. intros f Hf.
   apply inv13_holder_on_disk; [apply run_inv13|]. right. left.
   exists v, (indexes st1). split; [apply view_of_in; exact V|exact Hf].
@@ -961,6 +979,7 @@ End Statements.
 (* ================================================================ the property in one statement *)
 Section Headline.
 Variable capdb : N -> capture.
+Variable bad : N -> bool.
 Variable merge : list file -> list entry.
 Hypothesis merge_lookup : forall fs id, find_ent id (merge fs) = lookup_vis fs id.
 Hypothesis merge_sub : forall fs e, In e (merge fs) -> In e (ents_of fs).
@@ -986,8 +1005,8 @@ Proof.
 Qed.
 
 Theorem view_answers : forall acts1 acts2 v,
-  let st1 := fold_left (step capdb false merge) acts1 init in
-  let st2 := fold_left (step capdb false merge) (acts1 ++ AView v :: acts2) init in
+  let st1 := fold_left (step capdb bad false merge) acts1 init in
+  let st2 := fold_left (step capdb bad false merge) (acts1 ++ AView v :: acts2) init in
   view_of v (views st1) = None -> (forall a, In a acts2 -> a <> ARelease v) ->
   exists s, view_of v (views st2) = Some s /\
     (forall e, In e (all_streams s) ->
@@ -998,11 +1017,11 @@ Theorem view_answers : forall acts1 acts2 v,
     (forall f, In f s -> In (f_uid f) (disk st2)).
 Proof.
   intros acts1 acts2 v st1 st2 Hn Hr.
-  destruct (view_snapshot capdb merge acts1 acts2 v Hn Hr) as [V D].
+  destruct (view_snapshot capdb bad merge acts1 acts2 v Hn Hr) as [V D].
   exists (indexes st1). split; [exact V|].
-  pose proof (run_inv10 capdb merge merge_lookup merge_sub false acts1) as I.
-  pose proof (run_files_ok capdb merge merge_lookup merge_sub false merge_nodup acts1) as W.
-  destruct (all_streams_answer (processed st1) (indexes st1) (v_spec _ _ _ I) (v_ids _ _ _ I) W) as (A & B & C).
+  pose proof (run_inv10 capdb bad merge merge_lookup merge_sub false acts1) as I.
+  pose proof (run_files_ok capdb bad merge merge_lookup merge_sub false merge_nodup acts1) as W.
+  destruct (all_streams_answer (processed st1) (indexes st1) (v_spec _ _ _ _ I) (v_ids _ _ _ _ I) W) as (A & B & C).
   split; [exact A|]. split; [exact B|]. split; [exact C|exact D].
 Qed.
 
